@@ -137,8 +137,8 @@ Definition matchIndented (p : lp) : bool * lp :=
 
 Definition matchHTML (p : lp) : bool * lp :=
   if htmlEnd (bn (contBlock p)) (bytesAfterIndent p) then
-    let p := if negb (isRestBlank p) then collectInline p RawHTMLKind (len (bytesAfterIndent p)) else p in
-    (false, consumeLine p)
+    if isRestBlank p then (false, p)
+    else (false, consumeLine (collectInline p RawHTMLKind (len (bytesAfterIndent p))))
   else (true, p).
 
 Definition matchRule (p : lp) : bool * lp :=
